@@ -148,8 +148,10 @@ Definition pd_infer (cs : list cell) : option (pdt * list cell) :=
     else if forallb is_ts cs then Some (PDatetime, cs)
     else if forallb is_td cs then Some (PTimedelta, cs)
     else match c0 with
-         | CPer f _ => if forallb (is_per f) cs then Some (PPeriod f, cs) else None
-         | _ => if existsb is_ts cs || existsb is_td cs || existsb is_per_any cs then None else Some (PObject, cs)
+         | CPer f _ => if forallb (is_per f) cs then Some (PPeriod f, cs)
+                       else if existsb is_none cs then None else Some (PObject, cs)
+         | _ => (* dates next to None become NaT: not tabulated; any other mixture stays an object list *)
+                if existsb is_none cs && (existsb is_ts cs || existsb is_td cs || existsb is_per_any cs) then None else Some (PObject, cs)
          end
   end.
 
@@ -171,6 +173,14 @@ Definition pd_index (s : span) : option pindex :=
     end
     end
   end.
+
+(* label lists pandas leaves alone when it builds an Index: None only alone, ints and floats not mixed *)
+Definition label_stable (cs : list cell) : bool :=
+  (forallb is_none cs || negb (existsb is_none cs))
+  && negb (existsb is_int cs && existsb is_flt cs && forallb is_num_or_none cs).
+(* spans whose labels the export keeps: ranges and pandas index objects always, lists / tuples / arrays when label_stable *)
+Definition span_stable (s : span) : bool :=
+  match spkind s with SRange | SPandas _ _ => true | _ => label_stable (splabels s) end.
 
 (* DataFrame({k: ndarray}): one column from one NumPy array *)
 Definition pd_of_series (s : series) : pdt * list cell :=
@@ -358,7 +368,14 @@ Fixpoint has_dup (l : list string) : bool :=
   match l with [] => false | x :: r => mem_s x r || has_dup r end.
 
 (* names of __init__ parameters: a column called like one of them is passed as that parameter *)
-Definition init_params : list string := ["span"; "strict"; "dtype"; "default_value"; "engine"; "self"; "cls"; "data"].
+(* columns named like a parameter of __init__ are passed as that parameter by cls(index, **columns):
+   span, self        already bound: TypeError at the call ("multiple values for argument");
+   dtype             the array becomes dtype=: astype(array) raises TypeError at the first variable;
+   strict, engine, default_value   not tabulated (strict / engine cannot be variables of a model at all; a variable called
+                     default_value would make its column the fill value of every variable the table lacks) *)
+Definition reserved_params : list string := ["span"; "self"].
+Definition opaque_params : list string := ["strict"; "engine"; "default_value"].
+Definition init_params : list string := reserved_params ++ opaque_params ++ ["dtype"].
 
 (* isinstance(index, (DatetimeIndex, MultiIndex, PeriodIndex, TimedeltaIndex)): the four-way test of from_dataframe *)
 Definition is_time_index (k : ikind) : bool :=
@@ -383,16 +400,22 @@ Fixpoint init_vars (c : mclass) (n : nat) (cols : list pcolumn) (names : list st
   end.
 
 Definition from_table (c : mclass) (t : table) : tres fmodel :=
-  if existsb (fun col => mem_s (pcname col) init_params) (tcols t) then TUnmodelled
+  if existsb (fun col => mem_s (pcname col) reserved_params) (tcols t) then TErr TypeError
+  else if existsb (fun col => mem_s (pcname col) opaque_params) (tcols t) then TUnmodelled
   else if has_dup (cnames c) then TErr DuplicateNameError
-  else if cstrict c && existsb (fun col => negb (mem_s (pcname col) (cnames c))) (tcols t) then TErr InitialisationError
   else
-    let sp := span_of_index (tindex t) in
-    let n := length (ilabels (tindex t)) in
-    tbind (init_vars c n (tcols t) (cnames c)) (fun vars =>
-    TOk (mkModel sp (cnames c) vars
-                 (mkSeries NStr (repeat (CStr "-") n))
-                 (mkSeries NInt (repeat (CInt (-1)) n)))).
+    let ivals := filter (fun col => negb (String.eqb (pcname col) "dtype")) (tcols t) in       (* **initial_values *)
+    if cstrict c && existsb (fun col => negb (mem_s (pcname col) (cnames c))) ivals then TErr InitialisationError
+    else
+      let sp := span_of_index (tindex t) in
+      let n := length (ilabels (tindex t)) in
+      let fresh vars := mkModel sp (cnames c) vars (mkSeries NStr (repeat (CStr "-") n)) (mkSeries NInt (repeat (CInt (-1)) n)) in
+      if existsb (fun col => String.eqb (pcname col) "dtype") (tcols t) then
+        match cnames c with
+        | [] => TOk (fresh [])
+        | k :: _ => if mem_s k ["status"; "iterations"] then TErr DuplicateNameError else TErr TypeError
+        end
+      else tbind (init_vars c n (tcols t) (cnames c)) (fun vars => TOk (fresh vars)).
 
 (* cls.from_dataframe(data, *args, **kwargs) -> cls(index, *args, **columns, **kwargs): __init__ takes the span as its only
    positional parameter, so any further positional argument fails at the call (TypeError) before anything is built *)
@@ -487,6 +510,25 @@ Fixpoint rows_to_symbols (nm ty lg ld eq cd : list cell) : tres (list symbol) :=
 
 Definition symbol_fields : list string := ["name"; "type"; "lags"; "leads"; "equation"; "code"].
 
+(* When a field column is missing or an extra column is present EVERY row raises, so the first row decides, in the order of
+   the loop body: entry['type'] (KeyError), Type(...) (ValueError), lags, leads (KeyError, then TypeError / OverflowError of the
+   converter), name, equation, code (KeyError), and only then the Symbol constructor with its unexpected keyword (TypeError) *)
+Definition check_field {A} (cols : list pcolumn) (name : string) (conv : cell -> tres A) : tres unit :=
+  match find_col name cols with
+  | None => TErr KeyError
+  | Some c => match pccells c with
+              | [] => TUnmodelled
+              | x :: _ => tbind (conv x) (fun _ => TOk tt)
+              end
+  end.
+Definition first_row_raises (cols : list pcolumn) : tres (list symbol) :=
+  tbind (check_field cols "type" type_of_cell) (fun _ =>
+  tbind (check_field cols "lags" convert_to_int_or_none) (fun _ =>
+  tbind (check_field cols "leads" convert_to_int_or_none) (fun _ =>
+  tbind (check_field cols "name" (fun _ => TOk tt)) (fun _ =>
+  tbind (check_field cols "equation" (fun _ => TOk tt)) (fun _ =>
+  tbind (check_field cols "code" (fun _ => TOk tt)) (fun _ => TErr TypeError)))))).
+
 Definition table_to_symbols (t : table) : tres (list symbol) :=
   match ilabels (tindex t) with
   | [] => TOk []                                  (* no rows: the loop body never runs *)
@@ -494,9 +536,9 @@ Definition table_to_symbols (t : table) : tres (list symbol) :=
     match find_col "type" (tcols t), find_col "lags" (tcols t), find_col "leads" (tcols t),
           find_col "name" (tcols t), find_col "equation" (tcols t), find_col "code" (tcols t) with
     | Some ty, Some lg, Some ld, Some nm, Some eq, Some cd =>
-      if existsb (fun c => negb (mem_s (pcname c) symbol_fields)) (tcols t) then TErr TypeError   (* Symbol called with an unexpected keyword *)
+      if existsb (fun c => negb (mem_s (pcname c) symbol_fields)) (tcols t) then first_row_raises (tcols t)
       else rows_to_symbols (col_values nm) (col_values ty) (col_values lg) (col_values ld) (col_values eq) (col_values cd)
-    | _, _, _, _, _, _ => TErr KeyError
+    | _, _, _, _, _, _ => first_row_raises (tcols t)
     end
   end.
 
